@@ -171,6 +171,47 @@ class Twin:
             self.diffs.append(dict(cmd=list(args), diffs=d[:4]))
         return pa, pb, d
 
+    def run_early_close(self, *args):
+        """Run a command whose output is larger than a pipe buffer with a reader that closes the pipe after the first byte: plain git
+        dies of SIGPIPE; the proxy must mirror that termination (death by the same signal), not turn it into an exit code."""
+        import subprocess
+        from .world import BIN, REAL_GIT
+        res = []
+        for w, argv0, extra in ((self.A, [BIN], {"GIT_AI": "git"}), (self.B, [REAL_GIT], {})):
+            w.tick()
+            e = w.env(extra)
+            p = subprocess.Popen(argv0 + list(args), cwd=w.repo, env=e, stdout=subprocess.PIPE, stderr=subprocess.PIPE, stdin=subprocess.DEVNULL)
+            try:
+                p.stdout.read(1)
+                p.stdout.close()
+                p.stderr.read()
+                p.wait(timeout=60)
+                res.append(p.returncode)
+            except subprocess.TimeoutExpired:
+                p.kill()
+                res.append(-999)
+        self.stats["commands"] += 1
+        self.stats["early_close_runs"] = self.stats.get("early_close_runs", 0) + 1
+        self.log.append(list(args) + ["early-close", "rc=%s" % res[0]])
+        self.B.ogit("fetch", "-q", "--no-write-fetch-head", self.A.repo, "+refs/notes/ai*:refs/notes/ai*")
+        d = []
+        if -999 in res:
+            return res, d
+        if res[1] >= 0 and res[0] in (res[1], -13):
+            # plain git finished before the reader closed (its output fitted the pipe buffer): the early close was not provoked in the
+            # reference world, nothing to compare beyond the state
+            self.stats["early_close_not_provoked"] = self.stats.get("early_close_not_provoked", 0) + 1
+        elif res[0] != res[1]:
+            d.append(dict(what="termination", proxy=res[0], plain=res[1], note="negative = killed by that signal"))
+        sa, sb = self.state(self.A), self.state(self.B)
+        for k in sa:
+            if sa[k] != sb[k]:
+                d.append(dict(what="state:" + k, proxy=str(sa[k])[-300:], plain=str(sb[k])[-300:]))
+        self.stats["compared"] += 1
+        if d:
+            self.diffs.append(dict(cmd=list(args) + ["<reader closes early>"], diffs=d[:4]))
+        return res, d
+
     def check_argv(self, user_argv, shim_off):
         """C18 (CLI level): the argv the recording stand-in saw for the proxied call is the user's argv, apart from the documented
         `-c core.hooksPath=<path>` prefix; help/version normalisations are compared by the caller (in-process check)."""
